@@ -159,7 +159,19 @@ var (
 	holding  atomic.Bool
 	gate     atomic.Pointer[chan struct{}]
 	parkedN  atomic.Int64
+
+	heldMu    sync.Mutex
+	heldDrops []*heldDrop
 )
+
+// heldDrop is one parked `go w.receive(dropped, r, link, write)` goroutine of Reader.Close.
+type heldDrop struct {
+	w       *packet.Writer
+	r       *packet.Reader
+	write   uint64
+	release chan struct{}
+	done    chan struct{}
+}
 
 // spawnedByClose reports whether the calling (*Writer).receive is the entry function of its
 // goroutine, i.e. one of the `go w.receive(dropped, r)` that Reader.Close starts.
@@ -182,7 +194,7 @@ func spawnedByClose() bool {
 	}
 }
 
-func yieldHook(_ *packet.Writer, _ *packet.Reader, _ *packet.Packet) func() {
+func yieldHook(w *packet.Writer, r *packet.Reader, _ *packet.Packet, _ uint64, write uint64) func() {
 	if !holding.Load() || !spawnedByClose() {
 		return nil
 	}
@@ -190,9 +202,69 @@ func yieldHook(_ *packet.Writer, _ *packet.Reader, _ *packet.Packet) func() {
 	if g == nil {
 		return nil
 	}
+	h := &heldDrop{w: w, r: r, write: write, release: make(chan struct{}), done: make(chan struct{})}
+	heldMu.Lock()
+	heldDrops = append(heldDrops, h)
+	heldMu.Unlock()
 	parkedN.Add(1)
-	<-*g
-	return nil
+	select {
+	case <-h.release:
+		return func() { close(h.done) }
+	case <-*g:
+		return nil
+	}
+}
+
+// releaseDrops lets the held-back drop notices run one at a time, in a random order (the Go
+// scheduler may run the goroutines Reader.Close spawned in any order; C03.drop_notices_commute:
+// the order does not matter). Each release is mirrored in the model (`dropw`).
+func (wf *workflow) releaseDrops(seed uint64) {
+	// every notice was spawned synchronously by the crash actions; wait until their goroutines have parked
+	last, stable := -1, 0
+	for i := 0; i < 200 && stable < 2; i++ {
+		heldMu.Lock()
+		n := len(heldDrops)
+		heldMu.Unlock()
+		if n == last {
+			stable++
+		} else {
+			last, stable = n, 0
+		}
+		time.Sleep(100 * time.Microsecond)
+	}
+	heldMu.Lock()
+	hs := append([]*heldDrop(nil), heldDrops...)
+	heldDrops = nil
+	heldMu.Unlock()
+	x := seed*6364136223846793005 + 1442695040888963407
+	for i := len(hs) - 1; i > 0; i-- {
+		x = x*6364136223846793005 + 1442695040888963407
+		j := int((x >> 33) % uint64(i+1))
+		hs[i], hs[j] = hs[j], hs[i]
+	}
+	for _, h := range hs {
+		wid, rid := -1, -1
+		for id, w := range wf.writers {
+			if w == h.w {
+				wid = id
+			}
+		}
+		for key, r := range wf.readers {
+			if r == h.r && key[0] == wid {
+				rid = key[1]
+			}
+		}
+		if wid >= 0 && rid >= 0 {
+			wf.emit(fmt.Sprintf("dropw %d %d %d", wid, rid, h.write), "u")
+			wf.dropsReleased++
+		}
+		close(h.release)
+		select {
+		case <-h.done:
+		case <-time.After(watchdog):
+			wf.fail("blocked", "a released drop notice (writer %d, write %d) did not finish", wid, h.write)
+		}
+	}
 }
 
 // ---------------------------------------------------------------- scenario description
@@ -377,18 +449,19 @@ type workflow struct {
 	avail   map[int][]*packet.Packet // source writer id -> responses pushed into its pump, not yet reported
 	availCh chan int
 
-	lines, impls []string
-	fails        []string // oracle failures: "class\twhat"
-	nextV, nextA int
-	firstPostV   int          // payloads from here on belong to requests written after the crash point
-	srcClosed    map[qid]bool // the requester's own writer was closed by the crash (class (i) of close-discards-buffered)
-	nodeLossy    map[qid]bool // always empty now: the release of q through a node whose out-writer alone is closed used to be schedule-dependent
-	noCompare    bool         // the outcome is schedule-dependent (known finding): not compared with the model
-	inPortIdx    map[string]int
-	outPortIdx   map[string]int
-	nodeIdx      map[string]int
-	topoLines    []string
-	pendingCnt   map[int]*requester // line index of a pwrite whose count is known only at the end
+	lines, impls  []string
+	fails         []string // oracle failures: "class\twhat"
+	nextV, nextA  int
+	firstPostV    int          // payloads from here on belong to requests written after the crash point
+	dropsReleased int          // held-back drop notices released one at a time, in random order
+	srcClosed     map[qid]bool // the requester's own writer was closed by the crash (class (i) of close-discards-buffered)
+	nodeLossy     map[qid]bool // always empty now: the release of q through a node whose out-writer alone is closed used to be schedule-dependent
+	noCompare     bool         // the outcome is schedule-dependent (known finding): not compared with the model
+	inPortIdx     map[string]int
+	outPortIdx    map[string]int
+	nodeIdx       map[string]int
+	topoLines     []string
+	pendingCnt    map[int]*requester // line index of a pwrite whose count is known only at the end
 }
 
 // routed is the port a node of path a passes its requests on through: the out port, or – when the
@@ -437,7 +510,7 @@ func (wf *workflow) addRequester(q qid, wid int, w *packet.Writer) {
 }
 
 func build(sc *scen) (wf *workflow, err string) {
-	hookOnce.Do(func() { packet.VerifReceive = yieldHook })
+	hookOnce.Do(func() { packet.VerifReceiveWrite = yieldHook })
 	wf = &workflow{sc: sc, procIdx: map[*process.Process]int{}, writers: map[int]*packet.Writer{}, readers: map[[2]int]*packet.Reader{},
 		reqOf: map[qid]*requester{}, arrCh: make(chan arrival, 256), avail: map[int][]*packet.Packet{}, availCh: make(chan int, 256),
 		nextV: 1, nextA: 1000, srcClosed: map[qid]bool{}, nodeLossy: map[qid]bool{}, inPortIdx: map[string]int{}, outPortIdx: map[string]int{}, nodeIdx: map[string]int{}, pendingCnt: map[int]*requester{}}
@@ -1111,6 +1184,7 @@ type caseResult struct {
 	outstanding  int // responses owed at the crash point
 	released     int // of those, released with dropped
 	noCompare    bool
+	drops        int // held-back drop notices released in random order
 }
 
 func runCase(sc *scen, prefix int, acts []action) (res caseResult) {
@@ -1161,6 +1235,9 @@ func runCase(sc *scen, prefix int, acts []action) (res caseResult) {
 	hold := sc.dropHold || (sc.bare && len(acts) == 2)
 	if hold {
 		g = make(chan struct{})
+		heldMu.Lock()
+		heldDrops = nil
+		heldMu.Unlock()
 		gate.Store(&g)
 		holding.Store(true)
 	}
@@ -1179,6 +1256,7 @@ func runCase(sc *scen, prefix int, acts []action) (res caseResult) {
 		}
 	}
 	if hold {
+		wf.releaseDrops(uint64(sc.id)*131 + uint64(prefix)*17 + uint64(len(acts)))
 		holding.Store(false)
 		close(g)
 	}
@@ -1532,7 +1610,7 @@ func (wf *workflow) result(sc *scen, prefix int, acts []action) caseResult {
 		as = append(as, a.line())
 	}
 	res := caseResult{lines: wf.lines, impls: wf.impls, fails: wf.fails,
-		key: fmt.Sprintf("s%d/p%d/%s", sc.id, prefix, strings.Join(as, "+")), noCompare: wf.noCompare}
+		key: fmt.Sprintf("s%d/p%d/%s", sc.id, prefix, strings.Join(as, "+")), noCompare: wf.noCompare, drops: wf.dropsReleased}
 	for _, r := range wf.reqs {
 		for _, w := range r.writes {
 			if w.accepted && w.hard && !w.post {
@@ -1898,7 +1976,7 @@ func Run(c *lib.Ctx) {
 		"the model treats a OneToOneNode with one in and one out as a relay (forward: write or echo; backward: pass the response up); the Tracer's bookkeeping is C02's subject",
 		"promptness is observed (watchdog " + watchdog.String() + "), not proved; liveness in Lean is a measure argument under weak fairness of drop deliveries, pump steps and node loops",
 	}
-	c.Trusted = []string{"pkg/packet verif hook VerifReceive (used to hold back `go w.receive(dropped, r)` goroutines, identified by their stack)", "Go scheduler/channels/mutexes (modelled as atomic steps)"}
+	c.Trusted = []string{"pkg/packet verif hook VerifReceiveWrite (used to hold back the `go w.receive(dropped, r, link, write)` goroutines of Reader.Close, identified by their stack, and to release them one at a time in a random order, mirrored in the model by `dropw`)", "Go scheduler/channels/mutexes (modelled as atomic steps)"}
 
 	rng := lib.NewRNG(c.Seed)
 	model := &lib.Script{}
@@ -1938,6 +2016,10 @@ func Run(c *lib.Ctx) {
 		c.Count(key)
 		totalOwed += res.outstanding
 		totalReleased += res.released
+		if res.drops > 1 {
+			c.Hit("several-drop-notices-released-in-random-order")
+		}
+		c.Hist["drop-notices-released-one-by-one"] += res.drops
 		for _, a := range acts {
 			c.Hit("action-" + a.kind)
 		}
